@@ -761,6 +761,10 @@ class Server():
         Timeout stale connections
         """
         self.servant.serviceConnects()
+        for ca, cx in list(getattr(self.servant, "cxes", {}).items()):  # tls handshake pending
+            if cx.tymeout > 0.0 and cx.tymth and cx.tymer.expired:  # only if wound
+                cx.close()  # handshake still pending after tymeout so give up on it
+                del self.servant.cxes[ca]
         for ca, ix in list(self.servant.ixes.items()):  # ixes changes during iteration
             if ix.cutoff:
                 self.closeConnection(ca)
@@ -1208,6 +1212,10 @@ class BareServer():
         Timeout stale connections
         """
         self.servant.serviceConnects()
+        for ca, cx in list(getattr(self.servant, "cxes", {}).items()):  # tls handshake pending
+            if cx.tymeout > 0.0 and cx.tymth and cx.tymer.expired:  # only if wound
+                cx.close()  # handshake still pending after tymeout so give up on it
+                del self.servant.cxes[ca]
         for ca, ix in list(self.servant.ixes.items()):  # closeConnection deletes
             # check for and handle cutoff connections by client here
 
